@@ -88,7 +88,12 @@ lazy_static! {
 
         dt.iter().map(|x| x.to_diacritic()).collect()
     };
-    static ref CARDINALS_VEC: Vec<String> = CARDINALS_MAP.iter().map(|(k,_)| k.clone()).collect();
+    static ref CARDINALS_VEC: Vec<String> = {
+        // HashMap iteration order differs per process; sort so that rendering is deterministic
+        let mut keys: Vec<String> = CARDINALS_MAP.iter().map(|(k,_)| k.clone()).collect();
+        keys.sort();
+        keys
+    };
     static ref CARDINALS_TRIE: Trie = {
         let mut m = Trie::new();
         CARDINALS_MAP.iter().for_each(|(k,_)| m.insert(k.as_str()));
